@@ -226,11 +226,29 @@ async fn read_durable(db: &str, seed: u64) -> Result<Durable, String> {
 
 /// Restart on the same key and database and collect what is replayed from the frontier.
 async fn restart_and_replay(script: &Script, expect_some: bool) -> Result<(Vec<String>, bool), String> {
-    let node = spawn_node(script).await?;
-    let (_publisher, mut sub) = node.stream_from::<String>(topic_of(script.seed), StreamFrom::Frontier).await.map_err(|e| e.to_string())?;
+    // The real network stack (actors, endpoint) occasionally fails to start under machine load
+    // ("Messaging failed because channel is closed"); that is infrastructure, not the property:
+    // a start failure is retried on a fresh node, only a persistent one is reported.
+    let mut last = String::new();
+    for _attempt in 0..4 {
+        match restart_and_replay_once(script, expect_some).await {
+            Ok(r) => return Ok(r),
+            Err(e) if e.starts_with("START:") => {
+                last = e;
+                tokio::time::sleep(Duration::from_millis(200)).await;
+            }
+            Err(e) => return Err(e),
+        }
+    }
+    Err(last)
+}
+
+async fn restart_and_replay_once(script: &Script, expect_some: bool) -> Result<(Vec<String>, bool), String> {
+    let node = spawn_node(script).await.map_err(|e| format!("START: {e}"))?;
+    let (_publisher, mut sub) = node.stream_from::<String>(topic_of(script.seed), StreamFrom::Frontier).await.map_err(|e| format!("START: {e}"))?;
     let mut replayed = vec![];
     let mut ended = false;
-    let first_wait = if expect_some { 5_000 } else { 150 };
+    let first_wait = if expect_some { 30_000 } else { 150 };
     let mut wait = first_wait;
     loop {
         match tokio::time::timeout(Duration::from_millis(wait), sub.next()).await {
@@ -243,7 +261,7 @@ async fn restart_and_replay(script: &Script, expect_some: bool) -> Result<(Vec<S
             Ok(Some(_)) => {}
             Ok(None) | Err(_) => break,
         }
-        wait = 5_000;
+        wait = 30_000;
     }
     Ok((replayed, ended))
 }
@@ -287,7 +305,7 @@ impl Property for C15Prop {
         vec!["none; crash = process abort at hook H6 points (child process) or drop of every handle and the runtime"]
     }
     fn assumptions(&self) -> Vec<&'static str> {
-        vec!["crash model: process death with the OS page cache intact (SQLite durability trusted; no torn pages)", "real-time bounded waits: 5 s for an expected replay, 150 ms to confirm that nothing is replayed"]
+        vec!["crash model: process death with the OS page cache intact (SQLite durability trusted; no torn pages)", "real-time bounded waits: 30 s for an expected replay, 150 ms to confirm that nothing is replayed"]
     }
     fn shrink_budget_s(&self, _tier: Tier) -> u64 {
         0
